@@ -278,7 +278,7 @@ class C14(vlib.Driver):
 
     def gen_ppo(self, tier, rng):
         cases = []
-        S = 24 if tier == "quick" else 200
+        S = 24 if tier == "quick" else 100
         # Box policies: inference-mode clipping / squash + scale
         for bname in ("sym", "asym", "perdim", "one", "halfinf", "inf"):
             for squash in (False, True):
@@ -496,9 +496,12 @@ class C14(vlib.Driver):
                             for _ in range(reps):
                                 pre = [rng.choice(self.PRE[act]) for _ in box]
                                 noise = [[rng.choice([-16.0, -1.0, -0.25, 0.0, 0.5, 2.0, 16.0]) for _ in box] for _ in range(B)]
+                                kind = "vec"
+                                if bname == "asym" and act == "Tanh":
+                                    kind = ["dict", "disc", "tuple", "vec"][(int(training) * 2 + int(single)) % 4]
                                 cases.append({"fam": fam, "box": bname, "act": act, "pre": pre, "noise": noise,
                                               "training": training, "ou": rng.random() < 0.3, "single": single, "B": B,
-                                              "obs": "vec", "oseed": rng.randrange(10 ** 6)})
+                                              "obs": kind, "oseed": rng.randrange(10 ** 6)})
         return cases
 
     # ---------------------------------------------------------------- implementation
@@ -532,27 +535,27 @@ class C14(vlib.Driver):
         return {"action": np.asarray(out).tolist(), "shape": list(np.asarray(out).shape),
                 "dtype_kind": np.asarray(out).dtype.kind, "q": rec.outs[-1].reshape(B, n).tolist()}
 
-    def ddpg_agent(self, fam, bname, act, B, ou):
+    def ddpg_agent(self, fam, bname, act, B, ou, kind="vec"):
         from agilerl.algorithms.ddpg import DDPG
         from agilerl.algorithms.td3 import TD3
         cls = {"ddpg": DDPG, "td3": TD3}[fam]
 
         def build():
-            cfg = small_cfg()
+            cfg = small_cfg(kind)
             cfg["head_config"]["output_activation"] = act
-            return cls(obs_space_of("vec"), np_box(self.BOXES[bname]), net_config=cfg, share_encoders=False,
+            return cls(obs_space_of(kind), np_box(self.BOXES[bname]), net_config=cfg, share_encoders=False,
                        vect_noise_dim=B, O_U_noise=True, expl_noise=1.0, dt=1.0, theta=0.25)
-        ag = self.agent((fam, bname, act, B), build)
+        ag = self.agent((fam, bname, act, B, kind), build)
         ag.O_U_noise = ou
         return ag
 
     def run_ddpg(self, case):
         fam, box = case["fam"], self.BOXES[case["box"]]
         B, d = case["B"], len(box)
-        ag = self.ddpg_agent(fam, case["box"], case["act"], B, case["ou"])
+        ag = self.ddpg_agent(fam, case["box"], case["act"], B, case["ou"], case["obs"])
         pin(ag.actor, case["pre"])
         ag.current_noise = np.zeros((B, d))
-        obs = make_obs("vec", B, case["single"], random.Random(case["oseed"]))
+        obs = make_obs(case["obs"], B, case["single"], random.Random(case["oseed"]))
         noise = np.array(case["noise"], dtype=np.float64)
 
         def normal(*a, size=None, **k):
@@ -973,11 +976,10 @@ class C14(vlib.Driver):
     def term_ippo(self, case, obs):
         n, B = case["n"], case["B"]
         lg = qlist(case["logits"])
-        ts = []
-        for i in range(2):
-            for r in range(B):
-                m = case["masks"][i][r] if case["masks"] is not None else [1] * n
-                ts.append(f"check_support {lg} {blist(m)} {nlist(obs['support'][i * B + r])}")
+        masks = case["masks"] if case["masks"] is not None else [[[1] * n] * B] * 2
+        stacked = "[" + "; ".join("[" + "; ".join(blist(m) for m in per_agent) + "]" for per_agent in masks) + "]"
+        sup = "[" + "; ".join(nlist(x) for x in obs["support"]) + "]"
+        ts = [f"check_ippo_supports {lg} {stacked} {sup}"]
         if not case["training"]:
             box = self.BOXES[case["box"]]
             o = "; ".join(qlist(r) for r in obs["actions"][-1]["b_0"])
@@ -1000,6 +1002,8 @@ class C14(vlib.Driver):
         fam = case["fam"]
         if fam in ("ppo_box",):
             return ("squash" if case.get("squash") else "clip") + ("-train" if case.get("training") else "-eval")
+        if fam == "cqn" and case["obs"] in ("dict", "tuple"):
+            return "composite-obs"
         return "call"
 
     def oracle_dqn(self, case, obs):
@@ -1298,6 +1302,9 @@ class C14(vlib.Driver):
             labs += [f"box={case['box']}", f"act={case['act']}", "training" if case["training"] else "eval",
                      "ou" if case["ou"] else "gauss"]
         return labs
+
+    def signature_of_case(self, case):
+        return case["fam"]
 
     def neighbours(self, case, rng):
         """same call with other value / draw patterns (a tie can hide a wrong branch from the oracle)"""
